@@ -1,7 +1,7 @@
 (* Proofs/NotesTreeProofs.v -- one note per object and complete lookup for fan-out depth <= 1;
    refutation for deeper trees (C05, part 1). *)
 From Coq Require Import List NArith Bool Lia PeanoNat.
-From Verif Require Import Base.Str Base.StrFacts Model.NotesTree.
+From Verif Require Import Base.Str Base.StrFacts Gen.GenNotes Model.NotesTree.
 Import ListNotations.
 Open Scope N_scope.
 Arguments N.add : simpl never.
@@ -105,69 +105,239 @@ Qed.
 Lemma unique_keysb_spec t : unique_keysb t = true <-> unique_keys t.
 Proof. apply nodup_strs_NoDup. Qed.
 
-(* ------------------------------------------------------------------ one write *)
-Lemma layout_filter g t : layout_le1 t = true -> layout_le1 (filter g t) = true.
+(* ------------------------------------------------------------------ the D commands as one filter *)
+Lemma filter_filter {A} (f g : A -> bool) l :
+  filter f (filter g l) = filter (fun x => g x && f x) l.
 Proof.
-  unfold layout_le1. rewrite !forallb_forall. intros H e He.
-  apply filter_In in He as [He _]. auto.
+  induction l as [|x l IH]; cbn [filter]; [reflexivity|].
+  destruct (g x); cbn [filter andb]; [destruct (f x); rewrite IH; reflexivity | exact IH].
 Qed.
 
-Lemma layout_write_one t e : layout_le1 t = true -> layout_le1 (write_one t e) = true.
+Definition kept (ds : list path) (e : path * blob) : bool :=
+  forallb (fun p => negb (is_prefix p (fst e))) ds.
+
+Lemma fold_delete_filter ds : forall t,
+  fold_left (fun t' p => fi_delete p t') ds t = filter (kept ds) t.
 Proof.
-  intro L. unfold write_one, fi_modify, fi_delete, layout_le1.
-  rewrite forallb_app. apply andb_true_iff. split.
-  - apply layout_filter. apply layout_filter. destruct (path_eqb _ _); auto. apply layout_filter; auto.
-  - cbn [forallb fst]. rewrite fanout_le1. reflexivity.
+  induction ds as [|d ds IH]; intro t; cbn [fold_left].
+  - unfold kept. cbn [forallb]. induction t as [|x t IHt]; cbn [filter]; [reflexivity | f_equal; exact IHt].
+  - rewrite IH. unfold fi_delete. rewrite filter_filter. apply filter_ext. intro e.
+    unfold kept. cbn [forallb]. reflexivity.
 Qed.
 
-Lemma unique_write_one t e :
-  layout_le1 t = true -> unique_keys t -> unique_keys (write_one t e).
+Lemma write_one_with_eq all t s b :
+  write_one_with all t (s, b)
+  = filter (fun e => negb (is_prefix (fanout_path s) (fst e)) && negb (is_prefix (fst e) (fanout_path s)))
+           (filter (kept (delete_paths all s)) t) ++ [(fanout_path s, b)].
+Proof. unfold write_one_with, fi_modify. cbn [fst snd]. rewrite fold_delete_filter. reflexivity. Qed.
+
+Lemma In_fan_delete all s : In (fanout_path s) (delete_paths all s).
+Proof. unfold delete_paths. rewrite !in_app_iff. right. left. left. reflexivity. Qed.
+
+Lemma In_flat_delete all s : In [s] (delete_paths all s).
 Proof.
-  intros L U. destruct e as [s b]. unfold write_one, unique_keys, keys. cbn [fst snd].
-  set (fan := fanout_path s).
-  set (t1 := if path_eqb [s] fan then t else fi_delete [s] t).
-  assert (U1 : NoDup (map (fun e => key (fst e)) t1)).
-  { unfold t1. destruct (path_eqb [s] fan); auto. apply NoDup_map_filter; auto. }
-  assert (L1 : layout_le1 t1 = true).
-  { unfold t1. destruct (path_eqb [s] fan); auto. apply layout_filter; auto. }
-  unfold fi_modify. rewrite map_app. cbn [map fst].
-  assert (Hk : key fan = s) by apply key_fanout.
-  rewrite Hk.
-  apply NoDup_snoc.
-  - apply NoDup_map_filter. apply NoDup_map_filter. exact U1.
-  - intro Hin. apply in_map_iff in Hin as [[p b'] [Hkey Hin]]. cbn [fst] in Hkey.
-    apply filter_In in Hin as [Hin Hf]. cbn [fst] in Hf.
-    unfold fi_delete in Hin. apply filter_In in Hin as [Hin Hd]. cbn [fst] in Hd.
-    assert (Lp : path_le1 p = true).
-    { unfold layout_le1 in L1. rewrite forallb_forall in L1. apply (L1 (p, b')). exact Hin. }
-    destruct (le1_key_paths p s Lp Hkey) as [Hp | Hp].
-    + (* flat *)
-      subst p. unfold t1 in Hin. destruct (path_eqb [s] fan) eqn:E.
-      * apply path_eqb_eq in E. rewrite <- E, is_prefix_refl in Hd. discriminate.
-      * unfold fi_delete in Hin. apply filter_In in Hin as [_ Hd']. cbn [fst] in Hd'.
-        rewrite is_prefix_refl in Hd'. discriminate.
-    + subst p. fold fan in Hd. rewrite is_prefix_refl in Hd. discriminate.
+  unfold delete_paths. destruct (path_eqb [s] (fanout_path s)) eqn:E.
+  - apply path_eqb_eq in E. cbn [app]. left. symmetry. exact E.
+  - rewrite in_app_iff. left. left. reflexivity.
 Qed.
 
-(* ------------------------------------------------------------------ the batch *)
-Lemma batch_invariants es : forall t,
-  layout_le1 t = true -> unique_keys t ->
-  layout_le1 (fold_left write_one es t) = true /\ unique_keys (fold_left write_one es t).
+Lemma In_deep_delete s p : In p (deep_paths s) -> In p (delete_paths true s).
+Proof. intro H. unfold delete_paths. rewrite !in_app_iff. right. right. exact H. Qed.
+
+Lemma kept_not_listed ds e : In (fst e) ds -> kept ds e = false.
 Proof.
-  induction es as [|e es IH]; intros t L U; cbn [fold_left]; [split; assumption|].
-  apply IH; [apply layout_write_one | apply unique_write_one]; assumption.
+  intro H. unfold kept. destruct (forallb _ ds) eqn:E; auto.
+  rewrite forallb_forall in E. specialize (E _ H). rewrite is_prefix_refl in E. discriminate.
+Qed.
+
+(* ------------------------------------------------------------------ one write, any layout predicate *)
+Section OneWrite.
+  Variable P : path -> bool.
+  Variable all : bool.
+  Hypothesis P_fan : forall s, P (fanout_path s) = true.
+
+  Definition layout_P (t : tree) : Prop := forall e, In e t -> P (fst e) = true.
+
+  Lemma layout_P_write t e : layout_P t -> layout_P (write_one_with all t e).
+  Proof.
+    intros L x Hx. destruct e as [s b]. rewrite write_one_with_eq in Hx.
+    apply in_app_or in Hx as [Hx | [<- | []]].
+    - apply filter_In in Hx as [Hx _]. apply filter_In in Hx as [Hx _]. auto.
+    - cbn [fst]. apply P_fan.
+  Qed.
+
+  (* every place where a note of s can sit under P is among the deleted paths *)
+  Hypothesis P_covered : forall p s, P p = true -> key p = s -> In p (delete_paths all s).
+
+  Lemma unique_P_write t e : layout_P t -> unique_keys t -> unique_keys (write_one_with all t e).
+  Proof.
+    intros L U. destruct e as [s b]. rewrite write_one_with_eq. unfold unique_keys, keys.
+    rewrite map_app. cbn [map fst]. rewrite key_fanout. apply NoDup_snoc.
+    - apply NoDup_map_filter. apply NoDup_map_filter. exact U.
+    - intro Hin. apply in_map_iff in Hin as [x [Hk Hx]].
+      apply filter_In in Hx as [Hx _]. apply filter_In in Hx as [Hx Hkept].
+      rewrite (kept_not_listed _ x) in Hkept; [discriminate|].
+      apply P_covered; auto.
+  Qed.
+
+  Lemma batch_P es : forall t, layout_P t -> unique_keys t ->
+    layout_P (fold_left (write_one_with all) es t) /\ unique_keys (fold_left (write_one_with all) es t).
+  Proof.
+    induction es as [|e es IH]; intros t L U; cbn [fold_left]; [split; assumption|].
+    apply IH; [apply layout_P_write | apply unique_P_write]; assumption.
+  Qed.
+End OneWrite.
+
+Lemma layout_le1_P t : layout_le1 t = true <-> layout_P path_le1 t.
+Proof. unfold layout_le1, layout_P. apply forallb_forall. Qed.
+
+Lemma layout_ok_P t : layout_ok t = true <-> layout_P path_ok t.
+Proof. unfold layout_ok, layout_P. apply forallb_forall. Qed.
+
+Lemma le1_covered all p s : path_le1 p = true -> key p = s -> In p (delete_paths all s).
+Proof.
+  intros L K. destruct (le1_key_paths p s L K) as [-> | ->]; [apply In_flat_delete | apply In_fan_delete].
+Qed.
+
+(* ------------------------------------------------------------------ depth <= 1 (holds before and after the repair) *)
+Theorem batch_unique_with all t es :
+  layout_le1 t = true -> unique_keys t -> unique_keys (batch_write_with all t es).
+Proof.
+  intros L U. apply layout_le1_P in L.
+  apply (batch_P path_le1 all fanout_le1 (le1_covered all) (dedup_last es) t L U).
+Qed.
+
+Theorem batch_layout_with all t es :
+  layout_le1 t = true -> layout_le1 (batch_write_with all t es) = true.
+Proof.
+  intro L. apply layout_le1_P. apply layout_le1_P in L. unfold batch_write_with.
+  generalize (dedup_last es) as l. intro l. revert t L.
+  induction l as [|e l IH]; intros t L; cbn [fold_left]; auto.
+  apply IH. apply layout_P_write; auto. exact fanout_le1.
 Qed.
 
 Theorem batch_unique t es :
   layout_le1 t = true -> unique_keys t -> unique_keys (batch_write t es).
-Proof. intros L U. apply (batch_invariants (dedup_last es) t L U). Qed.
+Proof. apply batch_unique_with. Qed.
 
 Theorem batch_layout t es :
   layout_le1 t = true -> layout_le1 (batch_write t es) = true.
+Proof. apply batch_layout_with. Qed.
+
+(* ------------------------------------------------------------------ any layout git accepts *)
+Lemma key_split_dirs d : forall s, key (split_dirs d s) = s.
 Proof.
-  intro L. unfold batch_write. generalize (dedup_last es) as l. revert L. revert t.
-  intros t L l. revert t L. induction l as [|e l IH]; intros t L; cbn [fold_left]; auto.
-  apply IH. apply layout_write_one; assumption.
+  induction d as [|d IH]; intro s; cbn [split_dirs]; unfold key in *; cbn [concat].
+  - apply app_nil_r.
+  - rewrite IH. apply firstn_skipn.
+Qed.
+
+Lemma length_split_dirs d : forall s, length (split_dirs d s) = S d.
+Proof. induction d as [|d IH]; intro s; cbn [split_dirs length]; auto. Qed.
+
+Lemma git_path_ok_cons c q :
+  q <> [] -> git_path_ok (c :: q) = ((length c =? 2)%nat && git_path_ok q).
+Proof.
+  intro Hq. unfold git_path_ok. destruct q as [|c' q]; [congruence|].
+  cbn [is_nil negb andb]. change (removelast (c :: c' :: q)) with (c :: removelast (c' :: q)).
+  cbn [forallb]. reflexivity.
+Qed.
+
+Lemma path_split p : git_path_ok p = true -> p = split_dirs (length p - 1) (key p).
+Proof.
+  induction p as [|c q IH]; intro H; [discriminate|].
+  destruct q as [|c' q].
+  - cbn [length Nat.sub split_dirs]. unfold key. cbn [concat]. rewrite app_nil_r. reflexivity.
+  - rewrite git_path_ok_cons in H by discriminate. apply andb_true_iff in H as [Hc Hq].
+    apply Nat.eqb_eq in Hc. specialize (IH Hq).
+    replace (length (c :: c' :: q) - 1)%nat with (S (length (c' :: q) - 1)) by (cbn [length]; lia).
+    cbn [split_dirs]. unfold key in *. cbn [concat] in *.
+    assert (F : firstn 2 (c ++ c' ++ concat q) = c).
+    { rewrite firstn_app, <- Hc, firstn_all, Nat.sub_diag. cbn [firstn]. apply app_nil_r. }
+    assert (S' : skipn 2 (c ++ c' ++ concat q) = c' ++ concat q).
+    { rewrite skipn_app, <- Hc, skipn_all, Nat.sub_diag. reflexivity. }
+    rewrite F, S'. f_equal. exact IH.
+Qed.
+
+Lemma key_len p : git_path_ok p = true ->
+  length (key p) = (2 * (length p - 1) + length (last p []))%nat.
+Proof.
+  induction p as [|c q IH]; intro H; [discriminate|].
+  destruct q as [|c' q].
+  - unfold key. cbn [concat length last Nat.sub Nat.mul Nat.add]. rewrite app_nil_r. reflexivity.
+  - rewrite git_path_ok_cons in H by discriminate. apply andb_true_iff in H as [Hc Hq].
+    apply Nat.eqb_eq in Hc. specialize (IH Hq).
+    change (last (c :: c' :: q) []) with (last (c' :: q) []).
+    unfold key in *. change (concat (c :: c' :: q)) with (c ++ concat (c' :: q)).
+    rewrite app_length, IH, Hc. cbn [length]. lia.
+Qed.
+
+Lemma path_ok_git p : path_ok p = true -> git_path_ok p = true.
+Proof.
+  destruct p as [|c [|c' q]]; cbn [path_ok]; intro H; try discriminate.
+  - reflexivity.
+  - apply andb_true_iff in H as [H _]. exact H.
+Qed.
+
+Lemma fanout_ok s : path_ok (fanout_path s) = true.
+Proof.
+  unfold fanout_path. destruct (length s <=? 2)%nat eqn:E; [reflexivity|].
+  apply Nat.leb_gt in E. destruct (firstn_skipn_len2 s E) as [H1 H2].
+  cbn [path_ok]. unfold git_path_ok. cbn [is_nil negb removelast forallb last].
+  rewrite H1. destruct (skipn 2 s) as [|x l]; [congruence | reflexivity].
+Qed.
+
+Lemma In_deep_paths d s :
+  (2 <= d)%nat -> (2 * d < length s)%nat -> In (split_dirs d s) (deep_paths s).
+Proof.
+  intros H2 Hl. unfold deep_paths. apply in_map_iff. exists d. split; [reflexivity|].
+  apply in_seq.
+  assert (Hd : (d <= (length s - 1) / 2)%nat) by (apply Nat.div_le_lower_bound; lia).
+  lia.
+Qed.
+
+Lemma ok_probe p s : path_ok p = true -> key p = s -> In p (probe_paths true s).
+Proof.
+  intros Hok K. pose proof (path_ok_git p Hok) as Hg.
+  destruct p as [|c [|c' [|c'' q]]].
+  - discriminate.
+  - left. unfold key in K. cbn [concat] in K. rewrite app_nil_r in K. congruence.
+  - right. left. cbn [path_ok] in Hok. apply andb_true_iff in Hok as [Hg' Hl].
+    assert (L1 : path_le1 [c; c'] = true).
+    { cbn [path_le1]. unfold git_path_ok in Hg'. cbn [is_nil negb removelast forallb andb] in Hg'.
+      rewrite andb_true_r in Hg'. rewrite Hg'. cbn [last] in Hl. exact Hl. }
+    destruct (le1_key_paths _ s L1 K) as [H | H]; [discriminate H | symmetry; exact H].
+  - right. right. cbn [probe_paths].
+    rewrite (path_split _ Hg), K.
+    set (p := c :: c' :: c'' :: q) in *.
+    assert (Hlen : length (key p) = (2 * (length p - 1) + length (last p []))%nat) by (apply key_len; exact Hg).
+    assert (Hlast : last p [] <> []).
+    { unfold p in Hok. cbn [path_ok] in Hok. apply andb_true_iff in Hok as [_ Hl].
+      fold p in Hl. destruct (last p []); [discriminate | discriminate]. }
+    apply In_deep_paths.
+    + unfold p. cbn [length]. lia.
+    + rewrite <- K, Hlen. destruct (last p []); [congruence | cbn [length]; lia].
+Qed.
+
+Lemma ok_covered p s : path_ok p = true -> key p = s -> In p (delete_paths true s).
+Proof.
+  intros Hok K. destruct (ok_probe p s Hok K) as [<- | [<- | H]].
+  - apply In_flat_delete.
+  - apply In_fan_delete.
+  - apply In_deep_delete. exact H.
+Qed.
+
+(* the repaired writer keeps one entry per object for every layout (uses the translated fact) *)
+Lemma all_layouts : gn_all_layouts = true.
+Proof. reflexivity. Qed.
+
+Theorem batch_unique_any_layout t es :
+  layout_ok t = true -> unique_keys t ->
+  layout_ok (batch_write t es) = true /\ unique_keys (batch_write t es).
+Proof.
+  intros L U. apply layout_ok_P in L. unfold batch_write. rewrite all_layouts.
+  destruct (batch_P path_ok true fanout_ok ok_covered (dedup_last es) t L U) as [L' U'].
+  split; [apply layout_ok_P; exact L' | exact U'].
 Qed.
 
 (* ------------------------------------------------------------------ lookup *)
@@ -207,6 +377,21 @@ Proof.
   intros _ b Hin. eapply find_none in E; eauto. cbn [fst] in E. rewrite path_eqb_refl in E. discriminate.
 Qed.
 
+Lemma first_blob_Some t ps b : first_blob t ps = Some b -> exists p, In p ps /\ In (p, b) t.
+Proof.
+  induction ps as [|p ps IH]; cbn [first_blob]; [discriminate|].
+  destruct (find_blob t p) as [b'|] eqn:E.
+  - intro H. injection H as <-. exists p. split; [left; reflexivity | apply find_blob_In; exact E].
+  - intro H. destruct (IH H) as [q [Hq Hin]]. exists q. split; [right; exact Hq | exact Hin].
+Qed.
+
+Lemma first_blob_None t ps : first_blob t ps = None -> forall p b, In p ps -> ~ In (p, b) t.
+Proof.
+  induction ps as [|p ps IH]; cbn [first_blob]; intros H q b Hq; [contradiction|].
+  destruct (find_blob t p) as [b'|] eqn:E; [discriminate|].
+  destruct Hq as [<- | Hq]; [exact (find_blob_None _ _ E b) | exact (IH H q b Hq)].
+Qed.
+
 Lemma unique_find_key t s p b :
   unique_keys t -> In (p, b) t -> key p = s ->
   find (fun e => str_eqb (key (fst e)) s) t = Some (p, b).
@@ -218,41 +403,73 @@ Proof.
     apply str_eqb_eq in E. exfalso. apply H1. apply in_map_iff. exists (p, b). cbn [fst]. split; congruence.
 Qed.
 
-Theorem lookup_complete t sha :
-  layout_le1 t = true -> unique_keys t -> opt_list (lookup t sha) = git_lookup t sha.
+Lemma probe_keys all s p : In p (probe_paths all s) -> key p = s.
 Proof.
-  intros L U. unfold git_lookup.
-  assert (Hf : filter (fun e => git_path_ok (fst e) && str_eqb (key (fst e)) sha) t
-               = filter (fun e => str_eqb (key (fst e)) sha) t).
-  { apply filter_ext_in. intros e He. unfold layout_le1 in L. rewrite forallb_forall in L.
-    rewrite (le1_git_path_ok _ (L e He)). reflexivity. }
-  rewrite Hf, (filter_unique (fun e => key (fst e)) sha t U).
-  unfold lookup. destruct (find_blob t [sha]) as [b|] eqn:E1.
-  - apply find_blob_In in E1.
-    rewrite (unique_find_key t sha [sha] b U E1); [reflexivity|].
-    unfold key. cbn [concat]. apply app_nil_r.
-  - destruct (find_blob t (fanout_path sha)) as [b|] eqn:E2.
-    + apply find_blob_In in E2.
-      rewrite (unique_find_key t sha _ b U E2 (key_fanout sha)). reflexivity.
-    + destruct (find (fun e => str_eqb (key (fst e)) sha) t) as [[p b]|] eqn:E3; [|reflexivity].
-      exfalso. apply find_some in E3 as [Hin Hk]. cbn [fst] in Hk. apply str_eqb_eq in Hk.
-      assert (Lp : path_le1 p = true).
-      { unfold layout_le1 in L. rewrite forallb_forall in L. apply (L (p, b) Hin). }
-      destruct (le1_key_paths p sha Lp Hk) as [-> | ->].
-      * exact (find_blob_None _ _ E1 b Hin).
-      * exact (find_blob_None _ _ E2 b Hin).
+  unfold probe_paths. intros [<- | [<- | H]].
+  - unfold key. cbn [concat]. apply app_nil_r.
+  - apply key_fanout.
+  - destruct all; [|contradiction]. unfold deep_paths in H. apply in_map_iff in H as [d [<- _]].
+    apply key_split_dirs.
 Qed.
 
-(* ------------------------------------------------------------------ deeper fan-out: refuted *)
+Section Lookup.
+  Variable P : path -> bool.
+  Variable all : bool.
+  Hypothesis P_git : forall p, P p = true -> git_path_ok p = true.
+  Hypothesis P_probed : forall p s, P p = true -> key p = s -> In p (probe_paths all s).
+
+  Lemma lookup_P t sha :
+    layout_P P t -> unique_keys t -> opt_list (lookup_with all t sha) = git_lookup t sha.
+  Proof.
+    intros L U. unfold git_lookup.
+    assert (Hf : filter (fun e => git_path_ok (fst e) && str_eqb (key (fst e)) sha) t
+                 = filter (fun e => str_eqb (key (fst e)) sha) t).
+    { apply filter_ext_in. intros e He. rewrite (P_git _ (L e He)). reflexivity. }
+    rewrite Hf, (filter_unique (fun e => key (fst e)) sha t U).
+    unfold lookup_with. destruct (first_blob t (probe_paths all sha)) as [b|] eqn:E.
+    - apply first_blob_Some in E as [p [Hp Hin]].
+      rewrite (unique_find_key t sha p b U Hin (probe_keys all sha p Hp)). reflexivity.
+    - destruct (find (fun e => str_eqb (key (fst e)) sha) t) as [[p b]|] eqn:E3; [|reflexivity].
+      exfalso. apply find_some in E3 as [Hin Hk]. cbn [fst] in Hk. apply str_eqb_eq in Hk.
+      apply (first_blob_None _ _ E p b); auto. apply P_probed; auto. exact (L (p, b) Hin).
+  Qed.
+End Lookup.
+
+Lemma le1_probed all p s : path_le1 p = true -> key p = s -> In p (probe_paths all s).
+Proof.
+  intros L K. destruct (le1_key_paths p s L K) as [-> | ->]; [left; reflexivity | right; left; reflexivity].
+Qed.
+
+Theorem lookup_complete_with all t sha :
+  layout_le1 t = true -> unique_keys t -> opt_list (lookup_with all t sha) = git_lookup t sha.
+Proof.
+  intros L U. apply layout_le1_P in L.
+  exact (lookup_P path_le1 all le1_git_path_ok (le1_probed all) t sha L U).
+Qed.
+
+Theorem lookup_complete t sha :
+  layout_le1 t = true -> unique_keys t -> opt_list (lookup t sha) = git_lookup t sha.
+Proof. apply lookup_complete_with. Qed.
+
+Theorem lookup_complete_any_layout t sha :
+  layout_ok t = true -> unique_keys t -> opt_list (lookup t sha) = git_lookup t sha.
+Proof.
+  intros L U. apply layout_ok_P in L. unfold lookup. rewrite all_layouts.
+  exact (lookup_P path_ok true path_ok_git ok_probe t sha L U).
+Qed.
+
+(* ------------------------------------------------------------------ the code before the repair: refuted *)
 Theorem fanout2_refuted :
   exists t sha b,
-    Known_C05_fanout t = true /\ unique_keysb t = true /\
+    Known_C05_fanout t = true /\ layout_ok t = true /\ unique_keysb t = true /\
     (* (a) after the batch write two paths annotate the same object *)
-    unique_keysb (batch_write t [(sha, b)]) = false /\
+    unique_keysb (batch_write_with false t [(sha, b)]) = false /\
     (* (b) git's reader then returns both blobs (and prints their concatenation) *)
-    length (git_lookup (batch_write t [(sha, b)]) sha) = 2%nat /\
-    (* (c) the code's lookup misses the note that git's reader finds *)
-    git_lookup t sha <> [] /\ lookup t sha = None.
+    length (git_lookup (batch_write_with false t [(sha, b)]) sha) = 2%nat /\
+    (* (c) the lookup misses the note that git's reader finds *)
+    git_lookup t sha <> [] /\ lookup_with false t sha = None /\
+    (* ... and the repaired code is right on the same tree *)
+    unique_keysb (batch_write_with true t [(sha, b)]) = true /\ lookup_with true t sha = Some 1.
 Proof.
   exists w_tree2, w_sha, 2. vm_compute.
   repeat (split; try reflexivity). discriminate.
@@ -265,11 +482,17 @@ Proof.
   apply filter_In in He as [He _]. auto.
 Qed.
 
-Lemma write_one_removed_key t s b p b' :
-  layout_le1 t = true -> long_keys t = true -> (2 < length s)%nat ->
-  In (p, b') t -> key p <> s -> In (p, b') (write_one t (s, b)).
+Lemma is_prefix_len a : forall b, is_prefix a b = true -> (length a <= length b)%nat.
 Proof.
-  intros L LK Hs Hin Hk. unfold write_one. cbn [fst snd].
+  induction a as [|x a IH]; intros [|y b]; cbn [is_prefix length]; intro H; try lia; try discriminate.
+  apply andb_true_iff in H as [_ H]. specialize (IH b H). lia.
+Qed.
+
+Lemma write_one_removed_key all t s b p b' :
+  layout_le1 t = true -> long_keys t = true -> (2 < length s)%nat ->
+  In (p, b') t -> key p <> s -> In (p, b') (write_one_with all t (s, b)).
+Proof.
+  intros L LK Hs Hin Hk. rewrite write_one_with_eq.
   assert (Lp : path_le1 p = true).
   { unfold layout_le1 in L. rewrite forallb_forall in L. apply (L (p, b') Hin). }
   assert (Kp : (2 < length (key p))%nat).
@@ -300,42 +523,54 @@ Proof.
     - apply andb_true_iff in E as [E1 E2]. apply andb_true_iff in E2 as [E2 _].
       apply str_eqb_eq in E1. apply str_eqb_eq in E2. apply Hk.
       unfold key. cbn [concat]. rewrite app_nil_r, E1, E2. apply firstn_skipn. }
-  unfold fi_modify. apply in_or_app. left.
+  assert (P4 : forall d, In d (deep_paths s) -> is_prefix d p = false).
+  { intros d Hd. destruct (is_prefix d p) eqn:E; auto. exfalso. apply is_prefix_len in E.
+    unfold deep_paths in Hd. apply in_map_iff in Hd as [k [<- Hk']]. apply in_seq in Hk'.
+    rewrite length_split_dirs in E.
+    destruct p as [|a [|c [|d' p]]]; cbn [path_le1] in Lp; try discriminate; cbn [length] in E; lia. }
+  apply in_or_app. left.
   apply filter_In. cbn [fst]. split; [|rewrite P2, P3; reflexivity].
-  unfold fi_delete. apply filter_In. cbn [fst]. split; [|rewrite P2; reflexivity].
-  destruct (path_eqb [s] fan); auto.
-  apply filter_In. cbn [fst]. split; auto. rewrite P1. reflexivity.
+  apply filter_In. split; auto. unfold kept. apply forallb_forall. intros d Hd. cbn [fst].
+  apply negb_true_iff. unfold delete_paths in Hd. rewrite !in_app_iff in Hd.
+  destruct Hd as [Hd | [[<- | []] | Hd]].
+  - destruct (path_eqb [s] (fanout_path s)); [contradiction|]. destruct Hd as [<- | []]. exact P1.
+  - exact P2.
+  - destruct all; [apply P4; exact Hd | contradiction].
 Qed.
 
-Lemma write_one_only_adds t s b p b' :
-  In (p, b') (write_one t (s, b)) -> In (p, b') t \/ (p = fanout_path s /\ b' = b).
+Lemma write_one_only_adds all t s b p b' :
+  In (p, b') (write_one_with all t (s, b)) -> In (p, b') t \/ (p = fanout_path s /\ b' = b).
 Proof.
-  unfold write_one, fi_modify, fi_delete. cbn [fst snd]. intro H.
+  rewrite write_one_with_eq. intro H.
   apply in_app_or in H as [H | [H | []]].
-  - left. apply filter_In in H as [H _]. apply filter_In in H as [H _].
-    destruct (path_eqb _ _); auto. apply filter_In in H as [H _]. auto.
+  - left. apply filter_In in H as [H _]. apply filter_In in H as [H _]. exact H.
   - right. injection H as <- <-. auto.
 Qed.
 
-Lemma long_write_one t s b :
-  long_keys t = true -> (2 < length s)%nat -> long_keys (write_one t (s, b)) = true.
+Lemma long_write_one all t s b :
+  long_keys t = true -> (2 < length s)%nat -> long_keys (write_one_with all t (s, b)) = true.
 Proof.
-  intros LK Hs. unfold write_one, fi_modify, fi_delete, long_keys. cbn [fst snd].
+  intros LK Hs. rewrite write_one_with_eq. unfold long_keys.
   rewrite forallb_app. apply andb_true_iff. split.
-  - apply long_filter. apply long_filter. destruct (path_eqb _ _); auto. apply long_filter; auto.
+  - apply long_filter. apply long_filter. exact LK.
   - cbn [forallb fst]. rewrite key_fanout. apply Nat.ltb_lt in Hs. rewrite Hs. reflexivity.
 Qed.
 
-Lemma fold_preserves_others es : forall t k,
+Lemma layout_write_one all t e : layout_le1 t = true -> layout_le1 (write_one_with all t e) = true.
+Proof.
+  intro L. apply layout_le1_P. apply layout_P_write; [exact fanout_le1 | apply layout_le1_P; exact L].
+Qed.
+
+Lemma fold_preserves_others all es : forall t k,
   layout_le1 t = true -> long_keys t = true ->
   Forall (fun e => (2 < length (fst e))%nat) es ->
   ~ In k (map fst es) ->
-  forall p b, key p = k -> (In (p, b) (fold_left write_one es t) <-> In (p, b) t).
+  forall p b, key p = k -> (In (p, b) (fold_left (write_one_with all) es t) <-> In (p, b) t).
 Proof.
   induction es as [|[s b0] es IH]; intros t k L LK F Hk p b Kp; cbn [fold_left]; [tauto|].
   inversion F; subst. cbn [fst] in *. cbn [map fst In] in Hk.
   assert (Hks : key p <> s) by (intro; apply Hk; left; congruence).
-  rewrite (IH (write_one t (s, b0)) (key p)); auto.
+  rewrite (IH (write_one_with all t (s, b0)) (key p)); auto.
   - split.
     + intro H. apply write_one_only_adds in H as [H | [H _]]; auto.
       exfalso. apply Hks. rewrite H. apply key_fanout.
@@ -356,7 +591,7 @@ Theorem batch_preserves_others t es k :
   ~ In k (map fst es) ->
   forall p b, key p = k -> (In (p, b) (batch_write t es) <-> In (p, b) t).
 Proof.
-  intros L LK F Hk. unfold batch_write. apply fold_preserves_others; auto.
+  intros L LK F Hk. unfold batch_write, batch_write_with. apply fold_preserves_others; auto.
   - rewrite Forall_forall in *. intros e He. apply F. apply dedup_last_sub; auto.
   - intro H. apply Hk. apply in_map_iff in H as [e [H1 H2]]. apply in_map_iff. exists e.
     split; auto. apply dedup_last_sub; auto.
